@@ -483,10 +483,31 @@ func (fx *FnCtx) evalCompositeLit(st *State, cl *ast.CompositeLit) Val {
 		n := len(cl.Elts)
 		return Val{fmt.Sprintf("(mk_%s %s 0 %d %d)", ss, cur, n, n), ss, t}
 	case *types.Map:
-		if len(cl.Elts) != 0 {
-			fx.fail("non-empty map literal at %s", fx.pos(cl))
+		m := fx.makeMap(st, u, t)
+		dom, val, ks, vs := fx.sc.mapSorts(u)
+		hds := "(Array Int (Array " + ks + " Bool))"
+		hvs := "(Array Int (Array " + ks + " " + vs + "))"
+		for _, el := range cl.Elts {
+			kv, ok := el.(*ast.KeyValueExpr)
+			if !ok {
+				fx.fail("map literal element without key at %s", fx.pos(cl))
+			}
+			k := fx.coerce(fx.eval(st, kv.Key), ks, u.Key())
+			var v Val
+			if inner, ok := kv.Value.(*ast.CompositeLit); ok && inner.Type == nil {
+				v = Val{fx.sc.Zero(u.Elem()), vs, u.Elem()} // elided type: {} of the element type
+				if len(inner.Elts) != 0 {
+					fx.fail("nested literal with elided type at %s", fx.pos(cl))
+				}
+			} else {
+				v = fx.coerce(fx.eval(st, kv.Value), vs, u.Elem())
+			}
+			hd := fx.heapArr(st.heap, dom, hds)
+			hv := fx.heapArr(st.heap, val, hvs)
+			fx.setHeap(st, dom, hds, "(store "+hd+" "+m.T+" (store (select "+hd+" "+m.T+") "+k.T+" true))")
+			fx.setHeap(st, val, hvs, "(store "+hv+" "+m.T+" (store (select "+hv+" "+m.T+") "+k.T+" "+v.T+"))")
 		}
-		return fx.makeMap(st, u, t)
+		return m
 	}
 	fx.fail("unsupported composite literal of %v at %s", t, fx.pos(cl))
 	return Val{}
